@@ -204,6 +204,15 @@ pub fn catch<R>(f: impl FnOnce() -> R) -> Result<R, String> {
         Err(_) => Err(LAST_PANIC.with(|p| p.borrow_mut().take()).unwrap_or_else(|| "<panic>".into())),
     }
 }
+/// Poisons an `RwLock` the way a front-end thread that dies while holding its write guard does (the lock is free afterwards).
+pub fn poison_rwlock<T>(l: &std::sync::RwLock<T>) {
+    let _ = catch(|| { let _g = l.write().unwrap_or_else(|e| e.into_inner()); panic!("holder dies while holding the lock"); });
+    assert!(l.is_poisoned());
+}
+pub fn poison_mutex<T>(l: &std::sync::Mutex<T>) {
+    let _ = catch(|| { let _g = l.lock().unwrap_or_else(|e| e.into_inner()); panic!("holder dies while holding the lock"); });
+    assert!(l.is_poisoned());
+}
 /// Reduces a panic message to a stable site signature: `file:line` with the /repo prefix dropped.
 pub fn panic_site(msg: &str) -> String {
     match msg.rsplit_once(" @ ") {
